@@ -138,6 +138,8 @@ class C08(Prop):
                     return {"skip": True}
                 b = fil.read_dedisp_block(s, n, case["dm"])
                 res["out"] = dict(self._hdr(b.header), shape=list(b.data.shape), blockdm=float(b.dm))
+                # the time series collapsed from the dedispersed block records the DM that was applied
+                res["out"]["timdm"] = float(b.get_tim().header.dm)
             elif api in ("collapse", "read_chan", "dedisperse"):
                 if api == "collapse":
                     ts = fil.collapse(**kw)
@@ -243,6 +245,8 @@ class C08(Prop):
                 near(o["dm"], case["dm"], "dm", 1e-6)
             if api in ("read_dedisp", "blk_dedisp"):
                 near(o["blockdm"], case["dm"], "block dm", 1e-6)
+            if "timdm" in o:
+                near(o["timdm"], case["dm"], "dm of get_tim() of the dedispersed block", 1e-6)
             # channel labels
             fo = lambda i: o["fch1"] + i * o["foff"]   # noqa: E731
             if api in ("read_block", "mask", "samps", "zerodm", "read_dedisp", "blk_dedisp"):
